@@ -7,6 +7,7 @@ import subprocess
 import sys
 from concurrent.futures import ThreadPoolExecutor
 
+import numpy as np
 from hypothesis import strategies as st
 from hypothesis.stateful import RuleBasedStateMachine, rule
 
@@ -61,6 +62,26 @@ def pool():
         tipd = dict(chains=[_ch("A", seq, k=k), dict(_ch("B", ["GLY", "ALA"], k=2), contact=dict(target=tgt, dir=[0.1, 0.05, 0.02], gap=1.3 + 0.2 * k, tip=True))],
                     waters=[])
         out.append((f"tip-clash-{k}", pdb(tipd), "pdb", [f"--ff={['AMBER', 'PARSE', 'CHARMM'][k]}"], {}))
+    # exact ties: waters whose two (or four) hydrogen-bond partners are EXACTLY equidistant (mirror
+    # images, as on special positions of a crystal / in symmetric assemblies): whatever order the
+    # neighbour search returns them in must itself be a function of the input
+    def tie_text(kind):
+        st_ = build.materialise(dict(chains=[_ch("A", ["ALA", "SER", "THR", "ASN"])], waters=[]))
+        seq = 100
+        for t in range(4):
+            x = 60.0 + 9.0 * t
+            centre = [x, 60.0, 12.0]
+            if kind == "pairs":
+                partners = [[x + 2.6, 60.0, 13.0], [x + 2.6, 60.0, 11.0]]
+            else:
+                partners = [[x + 2.5, 61.0, 12.0], [x + 2.5, 59.0, 12.0], [x - 2.5, 61.0, 12.0], [x - 2.5, 59.0, 12.0]]
+            for p_ in [centre] + partners:
+                st_.add(name="O", resn="HOH", chain="A", seq=seq, xyz=np.array(p_), rec="HETATM", group=("water",))
+                seq += 1
+        return st_.text()
+
+    out.append(("tie-water-pairs", tie_text("pairs"), "pdb", ["--ff=AMBER", "--keep-chain"], {}))
+    out.append(("tie-water-quads", tie_text("quads"), "pdb", ["--ff=PARSE"], {}))
     out.append(("pep-amber", pdb(pep), "pdb", ["--ff=AMBER"], {}))
     out.append(("pep-parse-ws", pdb(pep), "pdb", ["--ff=PARSE", "--whitespace"], {}))
     out.append(("two-charmm", pdb(two), "pdb", ["--ff=CHARMM"], {}))
